@@ -318,7 +318,8 @@ class _Finder(importlib.abc.MetaPathFinder):
         return None
 
 
-def install(repo='/repo'):
+def install(repo=None):
+    repo = repo or os.environ.get('VERIF_REPO', '/repo')
     """must run before supp.* is imported in this process"""
     for m in list(sys.modules):
         if m == 'supp' or m.startswith('supp.'):
